@@ -7,6 +7,7 @@ package comdoc
 //@ func freeSectors
 //@   property C18 C11
 //@   nopanic
+//@   modifies mem(sat)
 //@
 //@ func (*ComDoc).makeFreeSectors
 //@   property C18
@@ -50,16 +51,31 @@ package comdoc
 //@   modifies mem(r.sectorBuf)
 //@
 //@ func (*ComDoc).addStream
-//@   property C18 C11
-//@   nopanic implicit
+//@   property C18
 //@   requires (r.SectorSize == 512 || r.SectorSize == 4096) && r.ShortSectorSize >= 1 && r.ShortSectorSize <= r.SectorSize && len(contents) <= 1073741824
-//@   requires len(r.SAT) <= 1073741824 && len(r.SSAT) <= 1073741824
-//@   requires !short
-//@   deadedges 4
-//@   loop 0 sig "for _, i := range freeList" invariant -1 <= rangeindex && rangeindex < len(freeList) && sameslice(sat, r.SAT) && \
+//@   requires len(r.SAT) <= 1073741824 && len(r.SSAT) <= 1073741824 && !samearr(r.SAT, r.SSAT)
+//@   loop 0 sig "for _, i := range freeList" invariant -1 <= rangeindex && rangeindex < len(freeList) && len(contents) >= 0 && (rangeindex == -1 ==> previous == -2 && first == -2)
+//@   loop 0 invariant @regular_stream_state !short ==> sameslice(sat, r.SAT) && \
 //@        (rangeindex == -1 ==> previous == -2 && first == -2) && (rangeindex >= 0 ==> previous == freeList[rangeindex] && first == freeList[0]) && \
 //@        forall(k, 0, len(freeList), 0 <= freeList[k] && freeList[k] < len(sat)) && forall(a, 0, len(freeList), forall(b, a + 1, len(freeList), freeList[a] < freeList[b])) && \
-//@        (len(freeList) > 0 ==> !samearr(freeList, sat)) && len(contents) >= 0
-//@   loop 0 invariant @chain_links_so_far forall(k, 0, rangeindex, sat[freeList[k]] == freeList[k+1])
-//@   ensures @first_sector_of_the_new_chain ret1 == nil && len(contents) > 0 ==> ret0 >= 0 && ret0 < len(r.SAT)
+//@        (len(freeList) > 0 ==> !samearr(freeList, sat))
+//@   loop 0 invariant @chain_links_so_far !short ==> forall(k, 0, rangeindex, sat[freeList[k]] == freeList[k+1])
+//@   ensures @first_sector_of_the_new_chain ret1 == nil && len(contents) > 0 && !short ==> ret0 >= 0 && ret0 < len(r.SAT)
+//@   ensures @chain_is_terminated ret1 == nil && len(contents) > 0 && !short ==> r.SAT[previous] == -2
 //@   ensures @empty_stream_has_no_sectors ret1 == nil && len(contents) == 0 ==> ret0 == -2
+//@
+//@ func (*ComDoc).DeleteFile
+//@   property C18
+//@   loop 0 sig "for _, index := range r.rootFiles" invariant keepFiles == nil || allocated(keepFiles)
+//@   modifies r.rootFiles, r.changed, mem(r.Files), mem(r.SAT), mem(r.SSAT)
+//@   before call freeSectors(tbl, first): assert @chain_freed_in_the_table_that_holds_it first == item.NextSector && \
+//@        (item.StreamSize < r.Header.MinStdStreamSize ==> sameslice(tbl, r.SSAT)) && (item.StreamSize >= r.Header.MinStdStreamSize ==> sameslice(tbl, r.SAT))
+//@
+//@ func (*ComDoc).AddFile
+//@   property C18
+//@   requires (r.SectorSize == 512 || r.SectorSize == 4096) && r.ShortSectorSize >= 1 && r.ShortSectorSize <= r.SectorSize && len(contents) <= 1073741824
+//@   requires len(r.SAT) <= 1073741824 && len(r.SSAT) <= 1073741824 && !samearr(r.SAT, r.SSAT)
+//@   ghost deleted bool = false
+//@   on call (*ComDoc).DeleteFile(_, n) ret (e): deleted = (e == nil && n == name)
+//@   before call (*ComDoc).addStream(_, c, sh): assert @same_cutoff_as_the_reader_and_old_stream_removed_first deleted && sameslice(c, contents) && sh == (len(contents) < r.Header.MinStdStreamSize)
+//@   before call (*ComDoc).newDirEnt(_, n, sz, first): assert @directory_entry_describes_the_stored_stream n == name && sz == len(contents)
